@@ -154,7 +154,10 @@ def run(d, module, cfg_text, workers=16, timeout=900, simulate=None, env=None, d
 
 
 def sany(path):
-    lib = SPEC + os.pathsep + "/opt/veriftools/tlapm/lib/tlapm/stdlib"      # TLAPS.tla for the proof modules
+    lib = SPEC
+    with open(path) as fh:
+        if "TLAPS" in fh.read(2000):     # proof modules need TLAPS.tla (and only they: its library shadows other modules)
+            lib = SPEC + os.pathsep + "/opt/veriftools/tlapm/lib/tlapm/stdlib"
     cmd = ["java", "-DTLA-Library=" + lib, "-cp", JAR + ":" + DEPS, "tla2sany.SANY", path]
     p = subprocess.run(cmd, cwd=os.path.dirname(path), stdout=subprocess.PIPE, stderr=subprocess.STDOUT,
                        text=True)
